@@ -93,14 +93,14 @@ def check_mgs_answer(ctx, kw, scale, r, rep):
     nums, total, parts = exact_numbers(kw, scale)
     oracle = props.min_genset(nums, total, mult, parts, lowerbound=lb, maxsize=4)
     n_init = len(kw["numbers"])
-    code_range = list(range(lb, max(lb + 1, n_init)))
+    code_range = list(range(lb, max(lb + 1, n_init + 2)))
     if not r["ok"]:
         ctx.count("E2_genset", "unsolved")
         if oracle is not None:
             k_opt = oracle[0]
             if all(st == "kInfeasible" for st in r["statuses"].values()) and k_opt > code_range[-1]:
                 ctx.report(f"MinGenSet unsolved although a generating set of size {k_opt} exists ({oracle[1]}): k range {code_range} stops before it",
-                           rep, key="mgs_upper_end_exclusive")
+                           rep, key="mgs_range_ignores_partition_constraints" if kw.get("partition_constraints") else "mgs_upper_end_exclusive")
             elif mult > 1 and bit_cap(kw["total"]) < mult and \
                     props.min_genset(nums, total, min(mult, bit_cap(kw["total"])), parts, lowerbound=lb, maxsize=min(4, max(code_range))) is None:
                 ctx.report(f"MinGenSet unsolved although {oracle[1]} (scaled by {scale}) is a generating set: multiplicities > {bit_cap(kw['total'])} are cut off by the bit expansion",
@@ -187,7 +187,7 @@ def mgs_engine(ctx):
         # ---- E4 k sequence with the real statuses
         tried = [k for k, _ in r["caps"]]
         lo = ctx.model.run([e1misc.mgsloop_request(kw["lowerbound"], len(kw["numbers"]),
-                                                   {k: st == "kOptimal" for k, st in r["statuses"].items()})])[0]
+                                                   dict(r["statuses"]))])[0]
         mt, mres, mrange = e1misc.parse_loop(lo)
         ctx.count("E4_k_sequence", "cases")
         got = (tried, len(m.get_solution()) if r["ok"] else None)
@@ -210,7 +210,7 @@ def mgs_engine(ctx):
                     ctx.report("MinGenSet raised under an injected status " + repr(e), rep); continue
                 tried2 = [k for k, _ in r2["caps"]]
                 lo2 = ctx.model.run([e1misc.mgsloop_request(kw["lowerbound"], len(kw["numbers"]),
-                                                            {k: st == "kOptimal" for k, st in r2["statuses"].items()})])[0]
+                                                            dict(r2["statuses"]))])[0]
                 mt2, mres2, _ = e1misc.parse_loop(lo2)
                 ctx.count("E4_k_sequence_injected", "cases")
                 got2 = (tried2, len(r2["m"].get_solution()) if r2["ok"] else None)
@@ -220,7 +220,7 @@ def mgs_engine(ctx):
                                 dict(rep, inject={kopt: st_inj}))
                 else:
                     ctx.count("E4_k_sequence_injected", "agreements")
-                if r2["ok"]:
+                if r2["ok"] or r2["m"].is_solved():
                     ctx.report(f"MinGenSet.solve() went on to k={tried2[-1]} after status {st_inj} at k={kopt} and reports a solved, "
                                f"non-minimum answer {r2['m'].get_solution()} (a size-{kopt} set exists)",
                                dict(rep, inject={kopt: st_inj}), key="mgs_skips_inconclusive")
@@ -269,7 +269,7 @@ def witness_probes(ctx):
         kw = dict(numbers=nums, total=total, weight_type=int, max_multiplicity=1, lowerbound=1, remove_complement_values=True, **extra)
         r = run_mgs(ctx, kw)
         ctx.count("probe_witness", "cases")
-        check_mgs_answer(ctx, kw, 1, r, {"class": "MinGenSet", "args": describe(kw), "witness": "Props/C15.v C15_loop_upper_end_refuted"})
+        check_mgs_answer(ctx, kw, 1, r, {"class": "MinGenSet", "args": describe(kw), "witness": "Props/C15.v C15_loop_old_upper_end_refuted (fixed finding; must be solved now)"})
     kw = dict(numbers=[2, 3, 2], total=5, weight_type=int, max_multiplicity=2, lowerbound=1, remove_complement_values=True)
     r = run_mgs(ctx, kw)
     ctx.count("probe_witness", "cases")
